@@ -117,7 +117,7 @@ func (s *dualWriter) Add(w io.Writer) {
 func (s *dualWriter) Remove(w io.Writer) {
 	if w != nil {
 		for i, x := range s.Normal {
-			if xl, ok := x.(*logwr); ok && xl == w {
+			if xl, ok := x.(*logwr); ok && (xl == w || xl.Writer == w) {
 				s.Normal = append(s.Normal[:i], s.Normal[i+1:]...)
 				return
 			}
@@ -142,7 +142,7 @@ func (s *dualWriter) AddErrorWriter(w io.Writer) {
 func (s *dualWriter) RemoveErrorWriter(w io.Writer) {
 	if w != nil {
 		for i, x := range s.Error {
-			if xl, ok := x.(*logwr); ok && xl == w {
+			if xl, ok := x.(*logwr); ok && (xl == w || xl.Writer == w) {
 				s.Error = append(s.Error[:i], s.Error[i+1:]...)
 				return
 			}
@@ -174,7 +174,7 @@ func (s *dualWriter) RemoveLevelWriter(lvl Level, w io.Writer) {
 		}
 		if lw, ok := s.leveled[lvl]; ok {
 			for i, wr := range lw {
-				if wr == w {
+				if xl, ok := wr.(*logwr); wr == w || (ok && xl.Writer == w) {
 					s.leveled[lvl] = append(s.leveled[lvl][:i], s.leveled[lvl][i+1:]...)
 					break
 				}
